@@ -54,6 +54,8 @@ fixed("FX-C06-04", "C06", "0243e9f", "Compact/Indent of a 100000-deep tower: fat
 fixed("FX-C18-02", "C18", "0243e9f", "Compact/Indent accepted texts nested deeper than 10000 that encoding/json rejects")
 fixed("FX-C06-05", "C06", "3f05f4c", "Path.Unmarshal into a struct/slice/map panicked in castStruct & co. on null elements")
 
+fixed("FX-C10-03", "C10", "a395240", "data race on FieldQuery.hash (W/W and R/W in (*FieldQuery).Hash) when one query is shared through contexts")
+
 # ------------------------------------------------------------------ C05
 ALL15 = r"(Valid|Unmarshal:.+|Decode:.+)"
 STREAM = r"(Valid|Decode:.+)"
